@@ -533,7 +533,7 @@ Proof.
   - (* variant *)
     destruct (good_variant _ _ _ Hg) as (Hd & Htok & Hgx).
     cbn [marshal_p] in H. cbv zeta in H. cbn [relabel] in Hb |- *.
-    destruct (MAX_DEPTH <=? depth); [discriminate|].
+    destruct (MAX_DEPTH <=? depth); [discriminate|]. destruct (negb (ty_eqb (ty_of x) t)); [discriminate|].
     destruct (is_ok (validate_signature (to_str t))); [|discriminate].
     specialize (IH (depth + 1) Hgx _ _ H). cbn [mbuf mfds] in IH.
     destruct (relabel x (mfds c)) as [x' n'] eqn:Er. cbn [fst snd] in *.
